@@ -52,5 +52,12 @@ Definition run_scope (t : Z) (a : list sexp) : sexp :=
   | 205, [i] => SL [enc_str (ids_dotted (dec_ids i)); enc_str (ids_colons (dec_ids i))]
   | 206, [tr; m] => SL [enc_ids (tree_fqn (dec_list dec_ids tr)); enc_ids (fqn_member_name (dec_list dec_ids tr) (dec_ids m))]
   | 207, [l] => enc_ids (ids_sum (dec_list dec_ids l))
+  | 208, [c; SL qs] =>
+      let cs := dec_containers c in
+      SL (map (fun q => match q with SL [i; sc] => enc_uids (find_fqn cs (dec_ids i) (dec_ids sc)) | _ => SL [] end) qs)
+  | 209, [c; SL qs] =>
+      let cs := dec_containers c in SL (map (fun q => enc_uids (find_any cs (dec_ids q))) qs)
+  | 210, [SL qs] =>
+      SL (map (fun q => match q with SL [i; sc] => SL (map enc_ids (scope_resolution_order (dec_ids i) (dec_ids sc))) | _ => SL [] end) qs)
   | _, _ => SL [SI (-1)]
   end.
